@@ -2,13 +2,13 @@
 package verif_c07_test
 
 import (
-	"runtime/pprof"
-	"encoding/json"
 	"bytes"
 	"context"
+	"encoding/json"
 	"fmt"
 	"os"
 	"runtime"
+	"runtime/pprof"
 	"sort"
 	"strings"
 	"sync"
@@ -774,9 +774,36 @@ func (e *env) close() {
 		_ = e.writers[id].Close()
 	}
 	if e.cluster != nil {
-		if err := e.cluster.Close(); err != nil {
-			e.rep.Class("cluster-close-error")
-			e.rep.Add("close-error:"+errText(err), 1)
+		// Two phases, as in the C15 harness: every distribution layer first, then - once the
+		// goroutine count has settled - the storage layers. aspen's cluster store persists its
+		// state from untracked goroutines (x/kv.Subscriber.Flush: `go FlushSync`); one that is
+		// scheduled after its storage layer was closed panics the whole process with
+		// "pebble: closed". That shutdown race is outside this property.
+		keys := make([]int, 0, len(e.cluster.Nodes))
+		for k := range e.cluster.Nodes {
+			keys = append(keys, int(k))
+		}
+		sort.Ints(keys)
+		for _, k := range keys {
+			if err := e.cluster.Nodes[node.Key(k)].Layer.Close(); err != nil {
+				e.rep.Class("cluster-close-error")
+				e.rep.Add("close-error:"+errText(err), 1)
+			}
+		}
+		prev, stable := runtime.NumGoroutine(), 0
+		for t := 0; t < 200 && stable < 3; t++ {
+			time.Sleep(time.Millisecond)
+			if cur := runtime.NumGoroutine(); cur == prev {
+				stable++
+			} else {
+				prev, stable = cur, 0
+			}
+		}
+		for _, k := range keys {
+			if err := e.cluster.Nodes[node.Key(k)].Storage.Close(); err != nil {
+				e.rep.Class("cluster-close-error")
+				e.rep.Add("close-error:"+errText(err), 1)
+			}
 		}
 	}
 }
